@@ -80,7 +80,17 @@ def id_classes():
         "licref": ["LicenseRef-custom", "LicenseRef-a.b", "LicenseRef-Unknown0", "LicenseRef-X-1", "LicenseRef-MIT"],
         "unknown": ["Foo-1.0", "NotALicense", "MIT-ish", "GPL-9.9", "X11-like.v2"],
         "wrongcase": ["mit", "gpl-3.0-or-later", "APACHE-2.0", "Cc0-1.0", "bsd-3-clause"],
+        # begins with `LicenseRef-` but is not one: the SPDX idstring is letters, digits, '-' and '.' only, at least one of them
+        # (these are the ill-formed shapes the expression parser still takes as one identifier, so they can be *used*)
+        "licreflike": list(LICREF_LIKE),
     }
+
+
+# ill-formed LicenseRef- look-alikes: underscore, non-ASCII letters and digits, colon, empty tail
+LICREF_LIKE = ["LicenseRef-Acme_Internal", "LicenseRef-Lizenz-f\u00fcr-X", "LicenseRef-a:b", "LicenseRef-", "LicenseRef-x_", "LicenseRef-_0",
+               "LicenseRef-\u65e5\u672c", "LicenseRef-\u0663", "LicenseRef-\u00e9.1", "LicenseRef-a\u00b2"]
+# further look-alikes that can only occur as names below LICENSES/ (the expression parser refuses them inside an expression)
+LICREF_LIKE_NAMES = ["LicenseRef-a~b", "LicenseRef-a@b", "LicenseRef-a,b", "LicenseRef-(x)", "LicenseRef-a=b", "LicenseRef-caf\u00e9!"]
 
 
 # ----------------------------------------------------------------------------
@@ -385,13 +395,13 @@ def build_tree(root, case):
         elif k == "symlink":
             links.append((x["p"], x["to"]))
         elif k == "gitignored":
-            files[x["p"]] = "no tags here either\n"
-            ignored.append(x["p"])
+            files[x["p"]] = ("SPDX-License-Identifier: LicenseRef-ignored-material\n" if x.get("tags") else "no tags here either\n")
+            ignored += x["pats"] if "pats" in x else ["/" + x["p"]]
         elif k == "dir":
             files[x["p"] + "/.keep"] = ""
     if case.get("git"):
         files[".gitignore"] = "# SPDX-FileCopyrightText: 2001 Holder 0\n# SPDX-License-Identifier: %s\n%s" % (
-            case.get("gitignore_lic", "MIT"), "".join("/%s\n" % p for p in ignored))
+            case.get("gitignore_lic", "MIT"), "".join("%s\n" % p for p in ignored))
     cli.write_tree(root, files)
     for p in fifos:
         os.makedirs(os.path.dirname(os.path.join(root, p)) or root, exist_ok=True)
@@ -401,8 +411,10 @@ def build_tree(root, case):
         os.symlink(to, os.path.join(root, p))
     if case.get("git"):
         import subprocess
-        subprocess.run(["git", "init", "-q", root], check=True, capture_output=True,
-                       env={**os.environ, "GIT_CONFIG_GLOBAL": "/dev/null", "GIT_CONFIG_SYSTEM": "/dev/null"})
+        genv = {**os.environ, "GIT_CONFIG_GLOBAL": "/dev/null", "GIT_CONFIG_SYSTEM": "/dev/null"}
+        subprocess.run(["git", "init", "-q", root], check=True, capture_output=True, env=genv)
+        if case.get("gitadd"):
+            subprocess.run(["git", "-C", root, "add", "-A"], check=True, capture_output=True, env=genv)
 
 
 # ----------------------------------------------------------------------------
@@ -620,16 +632,30 @@ def model_report_out(out):
 K = lambda i: ["K", i]  # noqa: E731
 
 USES = ["alone", "plus", "and", "or", "with", "paren", "two-tags", "dotlicense", "toml", "dep5", "unused"]
-PROVISIONS = ["absent", "ID.txt", "ID.md", "ID", "sub/ID.txt", "ID+.txt", "ID.txt+companion"]
+PROVISIONS = ["absent", "ID.txt", "ID.md", "ID", "sub/ID.txt", "ID+.txt", "ID.txt+companion",
+              # a *different* name that SPDX naming relates to the identifier (for the GNU family both are list entries, see gnu_cases)
+              "ID-or-later.txt", "ID-only.txt"]
+
+
+def gnu_stems():
+    """the identifiers X of the bundled list that have the siblings X-only and X-or-later (GPL, LGPL, AGPL, GFDL families)"""
+    t = table()
+    return sorted(x for x in t if x + "-or-later" in t and x + "-only" in t)
+
+
+def gnu_forms(stem):
+    """the spellings SPDX naming relates to one another; as identifiers they are pairwise different (only the trailing '+' is tolerated)"""
+    return [stem, stem + "+", stem + "-only", stem + "-or-later"]
 
 
 def mkfile(p, exprs, cop=1, how="header", kind="text", style="py", **kw):
     return dict(p=p, kind=kind, how=how, style=style, exprs=exprs, cop=cop, **kw)
 
 
-def product_case(cls, x, use, prov):
+def product_case(cls, x, use, prov, px=None):
     """one cell of C06's quantifier: identifier x of class cls, used in form `use`, provided in form `prov`;
-    the rest of the project (a filler file and its licence) is compliant."""
+    the rest of the project (a filler file and its licence) is compliant.  With px the LICENSES/ entry is named after px
+    instead of x (an identifier related to x by naming only)."""
     filler = "ISC" if x not in ("ISC", "ISC+") else "0BSD"
     files = [mkfile("filler.py", [K(filler)])]
     lic = [filler + ".txt"]
@@ -663,21 +689,68 @@ def product_case(cls, x, use, prov):
         files.append(mkfile("dir/subject.txt", [K(x)], how="global", style="txt"))
     elif use == "unused":
         pass
+    y = px if px is not None else x
     if prov == "absent":
         pass
     elif prov == "ID.txt":
-        lic.append(x + ".txt")
+        lic.append(y + ".txt")
     elif prov == "ID.md":
-        lic.append(x + ".md")
+        lic.append(y + ".md")
     elif prov == "ID":
-        lic.append(x)
+        lic.append(y)
     elif prov == "sub/ID.txt":
-        lic.append("sub/dir/" + x + ".txt")
+        lic.append("sub/dir/" + y + ".txt")
     elif prov == "ID+.txt":
-        lic.append(plus(x) + ".txt")
+        lic.append(plus(y) + ".txt")
     elif prov == "ID.txt+companion":
-        lic += [x + ".txt", x + ".txt.license"]
-    return {"files": files, "lic": lic, "glob": glob, "cell": [cls, x, use, prov]}
+        lic += [y + ".txt", y + ".txt.license"]
+    elif prov == "ID-or-later.txt":
+        lic.append(base(y) + "-or-later.txt")
+    elif prov == "ID-only.txt":
+        lic.append(base(y) + "-only.txt")
+    return {"files": files, "lic": lic, "glob": glob, "cell": [cls, x, use, prov] + ([px] if px is not None else [])}
+
+
+def gnu_cases(tier, rng):
+    """used spelling x provided spelling over the GNU families: X, X+, X-only, X-or-later are four identifiers of the list; a use
+    of one is satisfied by a LICENSES/ entry of the same identifier (or, for a use with '+', of the identifier without it) and by
+    nothing else"""
+    combos = []
+    for s in gnu_stems():
+        for u in (s, s + "-only", s + "-or-later"):
+            for up in (False, True):
+                for p in gnu_forms(s):
+                    combos.append((u, up, p))
+    rng.shuffle(combos)
+    if tier != "thorough":
+        combos = combos[:90]
+    plain_uses = [u for u in USES if u not in ("plus", "unused")]
+    for u, up, p in combos:
+        if up:
+            # a use with '+': either the plain tag `X+` or `X+` inside a compound expression
+            if rng.random() < 0.5:
+                yield product_case("gnu", u, "plus", rng.choice(["ID.txt", "ID.txt", "ID.md", "ID", "sub/ID.txt"]), px=p)
+            else:
+                c = product_case("gnu", u, rng.choice(["and", "or", "paren", "two-tags", "dotlicense", "toml", "dep5"]),
+                                 rng.choice(["ID.txt", "ID.txt", "ID.md", "sub/ID.txt"]), px=p)
+                _plus_subject(c, u)
+                yield c
+        else:
+            yield product_case("gnu", u, rng.choice(plain_uses), rng.choice(["ID.txt", "ID.txt", "ID.md", "ID", "sub/ID.txt"]), px=p)
+
+
+def _plus_subject(case, x):
+    """rewrite the use of x in the subject file of a product case into x+"""
+    def rw(e):
+        if e[0] == "K":
+            return ["K", plus(x)] if e[1] == x else e
+        if e[0] == "WITH":
+            return e
+        return [e[0], rw(e[1]), rw(e[2])]
+    for f in case["files"]:
+        if f["p"] != "filler.py":
+            f["exprs"] = [rw(e) for e in f["exprs"]]
+    case["cell"][2] += "+plus"
 
 
 def product_cases(tier, rng):
@@ -717,6 +790,10 @@ def product_cases(tier, rng):
         for p in ("ID.txt", "ID", "absent"):
             yield product_case("licref", "LicenseRef-Unknown0", u, p)
             yield product_case("licref", "LicenseRef-SomeUnknownThing", u, p)
+    yield from gnu_cases(tier, rng)
+    # LicenseRef- look-alikes that can only be names below LICENSES/
+    for n in LICREF_LIKE_NAMES:
+        yield product_case("licreflike", n, "unused", rng.choice(["ID.txt", "ID", "sub/ID.txt", "ID.md"]))
 
 
 NAMES = ["a.py", "src/b c.py", "src/ü.c", "doc/read me.html", "data/x:y.txt", "src/deep/er/m.tex", "q.sql", "img/p.png",
@@ -848,6 +925,20 @@ def rand_dep5x(rng, case, pool, raw=None):
     return {"pats": [pat], "cop": rng.randint(1, 2), "expr": rand_expr(rng, pool), "raw": raw, "pos": rng.choice(["before", "before", "after"])}
 
 
+# What a Git repository ignores, and covered files whose names merely begin like an ignored entry (or are the beginning of one):
+# (entries of .gitignore, ignored files written to disk, names of look-alike covered files)
+IGNORE_GROUPS = [
+    (["/build/"], ["build/out.o", "build/sub/x.o"], ["build.gradle", "build.sh", "build-tools/x.py", "builder/m.c", "buil", "build.o.txt"]),
+    (["build/"], ["build/out.o"], ["build.gradle", "builds/a.py", "src/build.c", "b"]),
+    (["/info"], ["info"], ["information.py", "info.txt", "inf", "info-set/r.sql"]),
+    (["/notes.txt"], ["notes.txt"], ["notes.txt.in", "notes.tx", "notes.txt2.html"]),
+    (["/src/out/"], ["src/out/gen.c", "src/out/gen.h"], ["src/output.c", "src/out.c", "src/ou", "src/out-of-tree/z.py"]),
+    (["*.log"], ["run.log", "src/deep.log"], ["src/deep.logs/k.py", "run.log.txt", "run.logic.py", "run", "src/deep.lo"]),
+    (["/tmp/", "/cache"], ["tmp/t.bin", "cache"], ["tmp.py", "tmpl/u.html", "cache.c", "cached/v.tex", "t"]),
+    (["/src/gen"], ["src/gen"], ["src/gen.py", "src/generated/g.cpp", "src/g"]),
+]
+
+
 def compliant_case(rng, nfiles=None, glob=None):
     """compliant by construction: every file has a notice and expressions over valid, current identifiers, each
     provided as ID.<ext> (some in sub-directories, some with a .license companion), nothing else in LICENSES/."""
@@ -859,7 +950,18 @@ def compliant_case(rng, nfiles=None, glob=None):
     if glob == "tomltree":
         names, n = NAMES + TREE_NAMES + TREE_NAMES, max(n, rng.randint(2, 7))
     files = []
-    for p in sorted(set(rng.sample(names, n)), key=names.index):
+    chosen = sorted(set(rng.sample(names, n)), key=names.index)
+    git = rng.random() < 0.2
+    groups = []
+    if git and rng.random() < 0.85:
+        groups = rng.sample(IGNORE_GROUPS, rng.choice([1, 1, 2, 3]))
+        if any(g[0] == ["/build/"] for g in groups) and any(g[0] == ["build/"] for g in groups):
+            groups = [g for g in groups if g[0] != ["build/"]]
+        for pats, ign, alike in groups:
+            # the first look-alike is always taken: it sits in the deepest directory that holds an ignored entry, so that this
+            # directory has a tracked file (Git does not look for ignored files inside wholly untracked directories: C03)
+            chosen += [alike[0]] + rng.sample(alike[1:], rng.randint(0, min(2, len(alike) - 1)))
+    for p in chosen:
         kind = "binary" if p.endswith(".png") else "text"
         hows = ["dotlicense"] if kind == "binary" else ["header", "header", "dotlicense"]
         if glob == "toml":
@@ -878,9 +980,11 @@ def compliant_case(rng, nfiles=None, glob=None):
             f["gcop"] = rng.randint(0, 1)
             f["gexprs"] = [rand_expr(rng, pool) for _ in range(rng.randint(0, 2))]
         files.append(f)
-    case = {"files": files, "lic": [], "glob": glob, "extra": [], "git": rng.random() < 0.2}
+    case = {"files": files, "lic": [], "glob": glob, "extra": [], "git": git}
     if case["git"]:
         case["gitignore_lic"] = rng.choice(pool)
+        # the covered files are tracked (always when something below a sub-directory is ignored, see IGNORE_GROUPS)
+        case["gitadd"] = any(q.startswith("src/") for g in groups for q in g[1]) or rng.random() < 0.6
     if glob == "tomltree":
         case["tomls"] = gen_tomls(rng, [f["p"] for f in entries(case)], pool)
         settle_tomltree(rng, case, pool)
@@ -900,14 +1004,17 @@ def compliant_case(rng, nfiles=None, glob=None):
                          dict(k="plain", p="bom.spdx"), dict(k="plain", p="orphan.license"), dict(k="empty", p="src/empty.py"),
                          dict(k="symlink", p="link.py", to=files[0]["p"]), dict(k="dir", p="emptydir")], rng.randint(0, 4)):
         case["extra"].append(x)
-    if case["git"] and rng.random() < 0.7:
-        case["extra"].append(dict(k="gitignored", p="build/out.o"))
+    for pats, ign, alike in groups:
+        for k, q in enumerate(ign):
+            # the ignored material carries licence tags of its own now and then: it must not be looked at
+            case["extra"].append(dict(k="gitignored", p=q, pats=pats if k == 0 else [], tags=rng.random() < 0.3))
     return case
 
 
 DEFECTS = ["missing", "unused", "bad-used", "bad-provided", "deprecated", "noext", "nocop", "nolic", "readerr", "noboth",
            "wrongcase", "licref-missing", "licref-noext", "plus-only-provided", "emptycop",
-           "dep5-broken", "choke-tag", "toml-strip", "toml-prec", "toml-shadow"]
+           "dep5-broken", "choke-tag", "toml-strip", "toml-prec", "toml-shadow",
+           "licreflike-used-provided", "related-provided"]
 
 # License fields of a dep5 paragraph that are not SPDX licence expressions (unbalanced parentheses, dangling or doubled
 # operators, informal lists): the licence of every file the paragraph applies to cannot be determined
@@ -943,12 +1050,25 @@ def inject(rng, case, kind):
         if not any(h.startswith(x + ".") for h in have):
             case["lic"].append(x + ".txt")
     elif kind == "bad-used":
-        add_expr(f, K(rng.choice(cl["unknown"])))
+        add_expr(f, K(rng.choice(cl["unknown"] + cl["licreflike"])))
+    elif kind == "licreflike-used-provided":
+        # an ill-formed LicenseRef- that is used and has its text: still neither an SPDX identifier nor a LicenseRef-
+        x = rng.choice(cl["licreflike"])
+        add_expr(f, K(plus(x) if rng.random() < 0.15 else x))
+        if not any(h.startswith(x) for h in have):
+            case["lic"].append(("sub/" if rng.random() < 0.2 else "") + x + rng.choice([".txt", ".txt", ".md"]))
+    elif kind == "related-provided":
+        # the text in LICENSES/ belongs to another identifier of the same family (X / X+ / X-only / X-or-later)
+        st = rng.choice(gnu_stems())
+        u, pr = rng.sample(gnu_forms(st), 2)
+        if not any(h.startswith(st) for h in have):
+            add_expr(f, K(u))
+            case["lic"].append(pr + rng.choice([".txt", ".txt", ".md"]))
     elif kind == "wrongcase":
         add_expr(f, K(rng.choice(cl["wrongcase"])))
     elif kind == "bad-provided":
-        x = rng.choice(cl["unknown"] + cl["wrongcase"])
-        if not any(h.startswith(x + ".") for h in have):
+        x = rng.choice(cl["unknown"] + cl["wrongcase"] + cl["licreflike"] + LICREF_LIKE_NAMES)
+        if not any(h.startswith(x) for h in have):
             case["lic"].append(x + ".txt")
     elif kind == "deprecated":
         x = rng.choice(cl["deprecated"])
